@@ -139,3 +139,41 @@ def run_case(xs, mold, burn, cells, fill=7.5):
     rec.update(status=status, mean=out.get("mean", zero), var=out.get("var", zero), noise_scalar=out.get("noise_scalar", zero),
                noise_ft=out.get("noise_ft", [zero] * n_f), batch_ok=bool(batch_ok), pop_identity=bool(pop_ok), untouched=bool(untouched))
     return rec
+
+
+def run_mix_case(xs, ws, mold, burn, W=4):
+    """MixStep.tla: the mixture model's own parameter declarations (ModelParameter.for_probs / for_ind_mean_mixture /
+    for_ind_std_mixture) evaluated on a state holding the latent values, the pre-step cluster means and cluster
+    log-responsibilities log(w / W).  Returns the record for MixStepTrace."""
+    n = len(xs)
+    rec = {"xs": list(xs), "ws": list(ws), "mold": list(mold), "burn": bool(burn)}
+    zero = {"num": 0, "den": 0, "close": False}
+    rec.update(status="ok", probs=[zero, zero], mean=[zero, zero], var=[zero, zero], mean_vec=[[zero, zero], [zero, zero]])
+    sw = [sum(ws), n * W - sum(ws)]
+    try:
+        r = torch.tensor([[w / W, (W - w) / W] for w in ws], dtype=torch.float64)
+        # the rules read the responsibilities as softmax(-nll_regul_ind_sum_ind) (clamped at -100): give them log r
+        nll = WeightedTensor((-torch.log(r)).float())
+        x = torch.tensor([[float(v)] for v in xs])
+        xv = torch.tensor([[float(v), -float(v)] for v in xs])
+        state = {"tau": x, "tau_mean": torch.tensor([float(m) for m in mold]), "tau_std": torch.ones(2), "sources": xv,
+                 "sources_mean": torch.zeros(2, 2), "nll_regul_ind_sum_ind": nll, "probs": torch.tensor([0.5, 0.5])}
+        stats = {"tau": x, "tau_sqr": x ** 2, "sources": xv, "sources_sqr": xv ** 2}
+        p_probs = ModelParameter.for_probs(shape=(2,))
+        p_mean = ModelParameter.for_ind_mean_mixture("tau", shape=(2,))
+        p_std = ModelParameter.for_ind_std_mixture("tau", shape=(2,))
+        p_vec = ModelParameter.for_ind_mean_mixture("sources", shape=(2, 2))
+        probs = p_probs.compute_update(state=state, suff_stats=stats, burn_in=bool(burn)).reshape(-1)
+        mean = p_mean.compute_update(state=state, suff_stats=stats, burn_in=bool(burn)).reshape(-1)
+        std = p_std.compute_update(state=state, suff_stats=stats, burn_in=bool(burn)).reshape(-1)
+        vec = p_vec.compute_update(state=state, suff_stats=stats, burn_in=bool(burn))
+        den_var = n * (n - 1) if burn else n
+        if std.numel() == 1:
+            std = std.repeat(2)
+        rec["probs"] = [rat(probs[c], n * W) for c in range(2)]
+        rec["mean"] = [rat(mean[c], sw[c]) for c in range(2)]
+        rec["var"] = [rat(std[c] ** 2, den_var) for c in range(2)]
+        rec["mean_vec"] = [[rat(vec[s, c], sw[c]) for c in range(2)] for s in range(2)]
+    except Exception as e:  # noqa: BLE001 - the rule raised on an admissible case: a verdict
+        rec["status"] = f"{type(e).__name__}: {str(e)[:120]}"
+    return rec
